@@ -15,6 +15,10 @@ def run(tier, rep):
     # dense reuse of three names at depth: the same name under same-named parents under different grandparents
     rc.random_trees(rep, "C14", tier, rc.C14_TAGS, pool=["a", "b", "c"], ops=25, remove=0, kinds=["add", "add", "add", "text"],
                     n=300 if tier == "quick" else 5000)
+    # unions of paths that end in the same name and share parts of their ancestor chains (input space of the name hints);
+    # duplicate struct names that the as-coded model does not produce are reported here as well
+    rc.random_trees(rep, "C14", tier, rc.C14_TAGS, pool=["a", "b", "c", "d"], remove=0, mode="paths", pool_all=True,
+                    n=1200 if tier == "quick" else 20000, tag="paths")
     # the same local name with and without a namespace prefix, at several positions
     rc.random_trees(rep, "C14", tier, rc.C14_TAGS, pool=["a", "ns:a", "x:a", "b"], ops=20, remove=0, kinds=["add", "add", "add", "text"],
                     n=200 if tier == "quick" else 3000, pool_all=True, tag="prefixed")
